@@ -201,7 +201,7 @@ def run_property(prop, tier="quick", seed=0, unit_filter=None, nproc=None, extra
                 # as undecided (a failed frame obligation without a demonstration is never a pass and never a violation)
                 undecided.append(dict(name=items[0][0]["name"], reason="frame condition fails; interference search not run (the searches of this run used their %d s)" % frame_search_budget))
                 continue
-            if frame_searches > 4 and any(not r["known"] for r in reported):
+            if frame_searches > 1 and any(not r["known"] for r in reported):
                 # further written locations of the same run: one reproduced interference is enough to fail the check
                 print("  (frame failure for %s not searched individually: %d instance(s))" % (key[12:][:120], len(items)))
                 continue
